@@ -231,18 +231,19 @@ fn dec_body(src: &mut Source, depth: usize, clean: bool, max: usize, in_use: &mu
                         out.push(Node::DropGuard(slot));
                         in_use.retain(|x| *x != slot);
                     }
-                } else if !open_slots.is_empty() {
-                    let i = src.below(open_slots.len());
-                    let slot = open_slots.remove(i);
-                    in_use.retain(|x| *x != slot);
+                } else if !in_use.is_empty() {
+                    // any guard alive at this point, including one created by an enclosing body and moved into this closure
+                    let i = src.below(in_use.len());
+                    let slot = in_use.remove(i);
+                    open_slots.retain(|x| *x != slot);
                     out.push(Node::DropGuard(slot));
                 }
             }
             8 if !clean => {
-                if !open_slots.is_empty() {
-                    let i = src.below(open_slots.len());
-                    let slot = open_slots.remove(i);
-                    in_use.retain(|x| *x != slot);
+                if !in_use.is_empty() {
+                    let i = src.below(in_use.len());
+                    let slot = in_use.remove(i);
+                    open_slots.retain(|x| *x != slot);
                     out.push(Node::ForgetGuard(slot));
                 }
             }
@@ -283,6 +284,11 @@ struct Th<'a> {
     forgotten: Vec<bool>,
     non_lifo: bool,
     expects: &'a Mutex<Vec<(std::thread::ThreadId, Expect, Option<u32>, bool)>>, // (thread, what, expected recorder id or None=global/no-op, strict?)
+    /// where the *known* behaviour (every scope end writes back the pointer it saved, whatever the order; a forgotten
+    /// guard writes nothing back) sends each emission: parallel to `expects`
+    impl_targets: &'a Mutex<Vec<Option<u32>>>,
+    impl_slot: Option<usize>,
+    guard_prev: Vec<Option<Option<usize>>>,
     depth: usize,
     scope_ended_before: bool,
     nontrivial: &'a std::sync::atomic::AtomicBool,
@@ -328,7 +334,12 @@ fn exec(nodes: &[Node], th: &mut Th, clean: bool) {
                 let target = th.stack.last().map(|r| th.recs[r.0].id);
                 let dstr = ["x", "y", "", "zé"][*d as usize];
                 let e = emit(*form, dstr);
-                th.expects.lock().unwrap().push((std::thread::current().id(), e, target, strict));
+                {
+                    // one lock for both vectors keeps them parallel across threads
+                    let mut ex = th.expects.lock().unwrap();
+                    ex.push((std::thread::current().id(), e, target, strict));
+                    th.impl_targets.lock().unwrap().push(th.impl_slot.map(|r| th.recs[r].id));
+                }
                 if th.depth >= 2 || th.scope_ended_before {
                     th.nontrivial.store(true, Ordering::Relaxed);
                 }
@@ -338,6 +349,8 @@ fn exec(nodes: &[Node], th: &mut Th, clean: bool) {
                     continue;
                 }
                 let r = th.dyns[*rec];
+                let impl_prev = th.impl_slot;
+                th.impl_slot = Some(*rec);
                 th.stack.push((*rec, 100 + th.stack.len()));
                 th.installed_count[*rec] += 1;
                 th.depth += 1;
@@ -372,6 +385,7 @@ fn exec(nodes: &[Node], th: &mut Th, clean: bool) {
                     th.non_lifo = true;
                 }
                 th.stack.truncate(depth_stack - 1);
+                th.impl_slot = impl_prev;
                 th.installed_count[*rec] -= 1;
                 th.depth -= 1;
                 th.scope_ended_before = true;
@@ -382,6 +396,8 @@ fn exec(nodes: &[Node], th: &mut Th, clean: bool) {
                 }
                 let g = metrics::set_default_local_recorder(th.dyns[*rec]);
                 th.guards[*slot] = Some(g);
+                th.guard_prev[*slot] = Some(th.impl_slot);
+                th.impl_slot = Some(*rec);
                 th.guard_rec[*slot] = Some(*rec);
                 th.stack.push((*rec, *slot));
                 th.installed_count[*rec] += 1;
@@ -398,6 +414,9 @@ fn exec(nodes: &[Node], th: &mut Th, clean: bool) {
                         th.stack.remove(pos);
                     }
                     drop(g);
+                    if let Some(prev) = th.guard_prev[*slot].take() {
+                        th.impl_slot = prev;
+                    }
                     th.installed_count[rec] -= 1;
                     th.depth = th.depth.saturating_sub(1);
                     th.scope_ended_before = true;
@@ -407,6 +426,7 @@ fn exec(nodes: &[Node], th: &mut Th, clean: bool) {
                 if let Some(g) = th.guards[*slot].take() {
                     let rec = th.guard_rec[*slot].take().unwrap();
                     std::mem::forget(g);
+                    th.guard_prev[*slot] = None;
                     th.forgotten[rec] = true;
                     // the installation stays in thread-local storage: keep it in the model stack (routing is not asserted from here on)
                     th.installed_count[rec] -= 1; // the borrow is over as far as the compiler is concerned
@@ -440,6 +460,7 @@ fn run_case(case: &Case, sched_bytes: &[u8], ctx: &mut Ctx, global_id: Option<u3
         dyns.push(vec![plain[0], plain[1], alias, &alias.first]);
     }
     let expects: Mutex<Vec<(std::thread::ThreadId, Expect, Option<u32>, bool)>> = Mutex::new(vec![]);
+    let impl_targets: Mutex<Vec<Option<u32>>> = Mutex::new(vec![]);
     let flags: Mutex<Vec<(usize, bool, Vec<bool>)>> = Mutex::new(vec![]);
     let nontrivial = std::sync::atomic::AtomicBool::new(false);
     let owner: Mutex<Vec<(std::thread::ThreadId, usize)>> = Mutex::new(vec![]);
@@ -449,7 +470,7 @@ fn run_case(case: &Case, sched_bytes: &[u8], ctx: &mut Ctx, global_id: Option<u3
         .iter()
         .enumerate()
         .map(|(t, prog)| {
-            let (recs, dyns, expects, flags, nontrivial, owner) = (&recs, &dyns, &expects, &flags, &nontrivial, &owner);
+            let (recs, dyns, expects, impl_targets, flags, nontrivial, owner) = (&recs, &dyns, &expects, &impl_targets, &flags, &nontrivial, &owner);
             let clean = case.clean;
             Box::new(move || {
                 owner.lock().unwrap().push((std::thread::current().id(), t));
@@ -458,6 +479,9 @@ fn run_case(case: &Case, sched_bytes: &[u8], ctx: &mut Ctx, global_id: Option<u3
                     dyns: dyns[t].clone(),
                     guards: (0..NSLOT).map(|_| None).collect(),
                     guard_rec: vec![None; NSLOT],
+                    impl_targets,
+                    impl_slot: None,
+                    guard_prev: vec![None; NSLOT],
                     stack: vec![],
                     ended: vec![false; NREC],
                     installed_count: vec![0; NREC],
@@ -507,6 +531,7 @@ fn run_case(case: &Case, sched_bytes: &[u8], ctx: &mut Ctx, global_id: Option<u3
     let owner = owner.into_inner().unwrap();
     let thread_index = |tid: std::thread::ThreadId| owner.iter().find(|(t, _)| *t == tid).map(|(_, i)| *i);
     // (a) never entered while out of scope; (d) never from a thread that did not install it
+    let mut deferred: Option<Fail> = None;
     for e in events.iter().filter(|e| e.key.is_none()) {
         // classify by what happened to *this* recorder on *its* thread
         let (rt, ri) = (((e.rec - 1) / 10) as usize, ((e.rec - 1) % 10) as usize);
@@ -520,6 +545,12 @@ fn run_case(case: &Case, sched_bytes: &[u8], ctx: &mut Ctx, global_id: Option<u3
             "dispatch-to-ended-recorder"
         };
         drop(fl);
+        if !e.in_scope && sig != "dispatch-to-ended-recorder" {
+            // one of the two known findings: remember it, but let the remaining checks look for anything else first
+            // (a known finding must not hide a different violation in the same history)
+            deferred.get_or_insert_with(|| Fail::new(sig, format!("recorder {} was entered ({:?}) after the borrow that installed it had ended; case {:?}", e.rec, e.op, case)));
+            continue;
+        }
         ensure!(e.in_scope, sig, "recorder {} was entered ({:?}) after the borrow that installed it had ended; case {:?}", e.rec, e.op, case);
         let t = thread_index(e.thread);
         ensure!(t == Some(((e.rec - 1) / 10) as usize), "local-recorder-visible-to-other-thread", "recorder {} (private to thread {}) received an emission made on thread {:?}", e.rec, (e.rec - 1) / 10, t);
@@ -527,6 +558,9 @@ fn run_case(case: &Case, sched_bytes: &[u8], ctx: &mut Ctx, global_id: Option<u3
     // (b)/(c): each emission delivered exactly once, to the expected recorder, with what the call site spells
     let global_events: Vec<RecEvent> = global_log.map(|l| l.lock().unwrap()[global_before..].to_vec()).unwrap_or_default();
     let exps = expects.into_inner().unwrap();
+    let impl_t = impl_targets.into_inner().unwrap();
+    let flags_snapshot: Vec<(usize, bool, Vec<bool>)> = flags.lock().unwrap().clone();
+    let fl_forgot = |tid: std::thread::ThreadId| -> bool { thread_index(tid).and_then(|t| flags_snapshot.iter().find(|f| f.0 == t)).map(|f| f.2.iter().any(|x| *x)).unwrap_or(false) };
     // exactly-once overall: per thread, the number of describe/register events equals the number of emissions expected to reach some recorder
     for (tid, _) in owner.iter() {
         let delivered = events.iter().chain(global_events.iter()).filter(|ev| ev.thread == *tid && ev.key.is_none()).count();
@@ -559,19 +593,90 @@ fn run_case(case: &Case, sched_bytes: &[u8], ctx: &mut Ctx, global_id: Option<u3
             ensure!(want.values().all(|c| *c == 0), "emission-missing", "some emissions did not arrive where the model routes them: {:?}", want.iter().filter(|(_, c)| **c != 0).collect::<Vec<_>>());
         } else {
             ensure!(delivered <= emitted_total, "more-deliveries-than-emissions", "thread {:?}: {} emissions but {} deliveries", thread_index(*tid), emitted_total, delivered);
+            // Histories with an out-of-order end or a forgotten guard: every emission must still go where the statement
+            // routes it, or — the two known findings — where "each scope end writes back the pointer it saved" sends it.
+            // Anything else (lost, duplicated, sent to a third recorder) is a different defect.
+            let mine: Vec<(String, Option<u32>, Option<u32>)> = exps
+                .iter()
+                .zip(impl_t.iter())
+                .filter(|((t, ..), _)| t == tid)
+                .map(|((_, e, spec, _), imp)| (format!("{:?}", e), spec.or(global_id), imp.or(global_id)))
+                .collect();
+            let mut evs: Vec<(String, u32)> = vec![];
+            for ev in events.iter().chain(global_events.iter()).filter(|ev| ev.thread == *tid && ev.key.is_none()) {
+                let as_expect = match &ev.op {
+                    Op::Describe { kind, name, unit, desc } => Expect { kind: *kind, describe: true, name: name.clone(), labels: vec![], target: String::new(), level: Level::INFO, unit: *unit, desc: desc.clone() },
+                    Op::Register { kind, name, labels, target, level, .. } => Expect { kind: *kind, describe: false, name: name.clone(), labels: labels.clone(), target: target.clone(), level: *level, unit: None, desc: String::new() },
+                    _ => continue,
+                };
+                evs.push((format!("{:?}", as_expect), ev.rec));
+            }
+            // the log is ordered by time across recorders only per recorder; order the thread's events by position in the
+            // shared log (one log for all local doubles) followed by the global ones — alignment is by subsequence per target,
+            // so only "is there an assignment" is asked: emissions in order, each either delivered to an allowed recorder
+            // (consuming that recorder's next event with the same content) or, if an allowed target is "nobody", not at all
+            let feasible = |use_impl: bool| -> bool {
+                let mut next: std::collections::HashMap<u32, usize> = Default::default(); // per recorder: events consumed
+                let per_rec = |r: u32| -> Vec<&String> { evs.iter().filter(|(_, er)| *er == r).map(|(c, _)| c).collect() };
+                // greedy is exact here: an emission has at most two candidate recorders and per-recorder order is fixed, so try
+                // spec first, then impl, with backtracking over the (few) emissions where both are possible
+                #[allow(clippy::too_many_arguments)]
+                fn go(i: usize, mine: &[(String, Option<u32>, Option<u32>)], use_impl: bool, next: &mut std::collections::HashMap<u32, usize>, per_rec: &dyn Fn(u32) -> Vec<String>, total: usize, used: usize, dead: &mut std::collections::HashSet<(usize, Vec<(u32, usize)>)>) -> bool {
+                    if i == mine.len() {
+                        return used == total;
+                    }
+                    let mut state: Vec<(u32, usize)> = next.iter().map(|(k, v)| (*k, *v)).filter(|(_, v)| *v > 0).collect();
+                    state.sort();
+                    if dead.contains(&(i, state.clone())) {
+                        return false;
+                    }
+                    let (content, spec, imp) = &mine[i];
+                    let mut cands: Vec<Option<u32>> = vec![*spec];
+                    if use_impl && imp != spec {
+                        cands.push(*imp);
+                    }
+                    for c in cands {
+                        match c {
+                            None => {
+                                if go(i + 1, mine, use_impl, next, per_rec, total, used, dead) {
+                                    return true;
+                                }
+                            }
+                            Some(r) => {
+                                let k = *next.get(&r).unwrap_or(&0);
+                                let evr = per_rec(r);
+                                if k < evr.len() && evr[k] == *content {
+                                    next.insert(r, k + 1);
+                                    if go(i + 1, mine, use_impl, next, per_rec, total, used + 1, dead) {
+                                        return true;
+                                    }
+                                    next.insert(r, k);
+                                }
+                            }
+                        }
+                    }
+                    dead.insert((i, state));
+                    false
+                }
+                let owned = |r: u32| -> Vec<String> { per_rec(r).into_iter().cloned().collect() };
+                go(0, &mine, use_impl, &mut next, &owned, evs.len(), 0, &mut Default::default())
+            };
+            if !feasible(false) {
+                let known = if fl_forgot(*tid) { "dispatch-after-forget" } else { "restore-after-non-lifo-drop" };
+                ensure!(feasible(true), "unexpected-or-misrouted-delivery", "thread {:?} (scopes ended out of order / guard forgotten): the deliveries {:?} match neither the statement's routing nor the known write-back-what-was-saved behaviour; emissions (content, routed to, known behaviour sends to): {:?}; case {:?}", thread_index(*tid), evs, mine, case);
+                deferred.get_or_insert_with(|| Fail::new(known, format!("thread {:?}: emissions were routed by 'each scope end writes back the pointer it saved' rather than to the innermost recorder still in scope: {:?} delivered as {:?}", thread_index(*tid), mine, evs)));
+            }
         }
     }
-    Ok(())
+    match deferred {
+        Some(f) => Err(f),
+        None => Ok(()),
+    }
 }
 
 
-/// Bounded-exhaustive: every order of creating, dropping and forgetting up to three guards (each on
-/// its own recorder), with an emission after every step and the usual epilogue.
-fn exhaustive(pr: &PropRun) -> crate::engine::runner::LaneReport {
-    use crate::engine::runner::{LaneReport, Violation};
-    let start = std::time::Instant::now();
-    let mut rep = LaneReport::named("exhaustive-guard-orders-le3");
-    rep.exhaustive = true;
+/// The programs of the exhaustive lane (see `exhaustive_case` for the encoding) and the number of plain move sequences.
+fn exhaustive_programs() -> (Vec<Vec<u8>>, usize) {
     // enumerate sequences of moves: 0 = create next guard, 1+i = drop guard i, 10+i = forget guard i
     let mut seqs: Vec<Vec<u8>> = vec![];
     fn go(next: usize, alive: &Vec<usize>, cur: &mut Vec<u8>, out: &mut Vec<Vec<u8>>) {
@@ -599,43 +704,100 @@ fn exhaustive(pr: &PropRun) -> crate::engine::runner::LaneReport {
         }
     }
     go(0, &vec![], &mut vec![], &mut seqs);
-    for (k, seq) in seqs.iter().enumerate() {
-        let mut nodes = vec![];
-        let mut alive: Vec<usize> = vec![];
-        let mut next = 0usize;
-        let mut clean = true;
-        for m in seq {
-            match *m {
-                0 => {
-                    nodes.push(Node::Guard { rec: next, slot: next });
-                    alive.push(next);
-                    next += 1;
-                }
-                x if x >= 10 => {
-                    let g = (x - 10) as usize;
-                    alive.retain(|a| *a != g);
-                    nodes.push(Node::ForgetGuard(g));
-                    clean = false;
-                }
-                x => {
-                    let g = (x - 1) as usize;
-                    if alive.last() != Some(&g) {
-                        clean = false;
-                    }
-                    alive.retain(|a| *a != g);
-                    nodes.push(Node::DropGuard(g));
+    // every sequence as it is, and (for sequences of at most 5 moves) with every contiguous range of its moves placed
+    // inside a with_local_recorder closure on a fourth recorder — so guards of the enclosing body are dropped or
+    // forgotten from inside the closure and guards created inside it may outlive it
+    let mut programs: Vec<Vec<u8>> = vec![];
+    for seq in &seqs {
+        programs.push(seq.clone());
+        if seq.len() <= 5 {
+            for a in 0..seq.len() {
+                for b in a + 1..=seq.len() {
+                    let mut p = seq.clone();
+                    p.push(100 + a as u8);
+                    p.push(100 + b as u8);
+                    programs.push(p);
                 }
             }
-            nodes.push(Node::Emit(k % NFORMS, 0));
         }
-        if !alive.is_empty() && alive.windows(2).any(|w| w[0] > w[1]) {
-            clean = false;
+    }
+    let n = seqs.len();
+    (programs, n)
+}
+
+/// One program of the exhaustive lane: moves (0 = create the next guard, 1+i = drop guard i, 10+i = forget guard i), an
+/// emission after each, optionally followed by two bytes 100+a, 100+b meaning "moves a..b run inside a closure scope".
+fn exhaustive_case(prog: &[u8], k: usize) -> Case {
+    let (seq, wrap): (&[u8], Option<(usize, usize)>) = match prog {
+        [head @ .., a, b] if *a >= 100 && *b >= 100 => (head, Some(((*a - 100) as usize, (*b - 100) as usize))),
+        _ => (prog, None),
+    };
+    let mut per_move: Vec<Vec<Node>> = vec![];
+    let mut alive: Vec<usize> = vec![];
+    let mut next = 0usize;
+    let mut clean = wrap.is_none();
+    for m in seq {
+        let mut nodes = vec![];
+        match *m {
+            0 => {
+                nodes.push(Node::Guard { rec: next, slot: next });
+                alive.push(next);
+                next += 1;
+            }
+            x if x >= 10 => {
+                let g = (x - 10) as usize;
+                alive.retain(|a| *a != g);
+                nodes.push(Node::ForgetGuard(g));
+                clean = false;
+            }
+            x => {
+                let g = (x - 1) as usize;
+                if alive.last() != Some(&g) {
+                    clean = false;
+                }
+                alive.retain(|a| *a != g);
+                nodes.push(Node::DropGuard(g));
+            }
         }
-        // leftovers are dropped in slot order by the epilogue, which is creation order = out of order when >= 2 remain
-        if alive.len() >= 2 {
-            clean = false;
+        nodes.push(Node::Emit(k % NFORMS, 0));
+        per_move.push(nodes);
+    }
+    // leftovers are dropped in slot order by the epilogue, which is creation order = out of order when >= 2 remain
+    if alive.len() >= 2 {
+        clean = false;
+    }
+    let nodes: Vec<Node> = match wrap {
+        None => per_move.into_iter().flatten().collect(),
+        Some((a, b)) => {
+            let (a, b) = (a.min(per_move.len()), b.min(per_move.len()).max(a.min(per_move.len())));
+            let mut out: Vec<Node> = per_move[..a].iter().flatten().cloned().collect();
+            let mut body: Vec<Node> = per_move[a..b].iter().flatten().cloned().collect();
+            body.push(Node::Emit((k + 1) % NFORMS, 1));
+            out.push(Node::With { rec: 3, body, panic_at_end: false });
+            out.push(Node::Emit((k + 2) % NFORMS, 2));
+            out.extend(per_move[b..].iter().flatten().cloned());
+            out
         }
-        let case = Case { clean, threads: vec![nodes] };
+    };
+    Case { clean, threads: vec![nodes] }
+}
+
+pub fn case_exhaustive_replay(bytes: &[u8], _s: &[u8], ctx: &mut Ctx) -> Result<(), Fail> {
+    let case = exhaustive_case(bytes, bytes.len());
+    ctx.case(&case);
+    run_case(&case, &[], ctx, None, None)
+}
+
+/// Bounded-exhaustive: every order of creating, dropping and forgetting up to three guards (each on
+/// its own recorder), with an emission after every step and the usual epilogue.
+fn exhaustive(pr: &PropRun) -> crate::engine::runner::LaneReport {
+    use crate::engine::runner::{LaneReport, Violation};
+    let start = std::time::Instant::now();
+    let mut rep = LaneReport::named("exhaustive-guard-orders-le3");
+    rep.exhaustive = true;
+    let (programs, nseqs) = exhaustive_programs();
+    for (k, prog) in programs.iter().enumerate() {
+        let case = exhaustive_case(prog, k);
         let mut ctx = Ctx::default();
         ctx.fingerprint = Some(k as u64);
         if k % 97 == 5 {
@@ -647,12 +809,12 @@ fn exhaustive(pr: &PropRun) -> crate::engine::runner::LaneReport {
             if pr.cfg.is_known(&f.sig) {
                 rep.known_hits.entry(f.sig.clone()).or_insert((0, vec![], vec![], format!("{:?}", case))).0 += 1;
             } else {
-                rep.violations.push(Violation { lane: "exhaustive-guard-orders-le3".into(), sig: f.sig, msg: f.msg, bytes: seq.clone(), sched: vec![], decoded: format!("{:?}", case) });
+                rep.violations.push(Violation { lane: "exhaustive-guard-orders-le3".into(), sig: f.sig, msg: f.msg, bytes: prog.clone(), sched: vec![], decoded: format!("{:?}", case) });
                 break;
             }
         }
     }
-    rep.notes.push(format!("{} move sequences over <= 3 guards", seqs.len()));
+    rep.notes.push(format!("{} programs: {} move sequences over <= 3 guards, the short ones also with every contiguous range of moves inside a closure scope", programs.len(), nseqs));
     rep.wall_s = start.elapsed().as_secs_f64();
     rep
 }
@@ -916,6 +1078,23 @@ pub fn child(seed: u64) -> i32 {
     }
     let _ = helper.join();
     let _ = GLOBAL_LOG.set(log);
+    // In this fresh process, before anything leaks a guard: every forget-free program of the exhaustive lane, one at a
+    // time (process-wide bookkeeping inside the library — counters of installed recorders and the like — is only
+    // observable while no other thread and no leaked guard disturbs it).
+    {
+        let gl = GLOBAL_LOG.get().expect("global installed");
+        let (programs, _) = exhaustive_programs();
+        for (k, prog) in programs.iter().enumerate().filter(|(_, p)| p.iter().all(|m| *m < 10 || *m >= 100)) {
+            let case = exhaustive_case(prog, k);
+            let mut ctx = Ctx::default();
+            if let Err(f) = run_case(&case, &[], &mut ctx, Some(999), Some(gl)) {
+                if f.sig != "dispatch-after-forget" && f.sig != "restore-after-non-lifo-drop" {
+                    println!("CHILD-FAIL {} {} ; exhaustive program {:?} in a fresh process", f.sig, f.msg.replace('\n', " "), prog);
+                    return 1;
+                }
+            }
+        }
+    }
     let cfg = RunCfg { tier: crate::engine::runner::Tier::Quick, seed, scale: 1.0, strict: false, known: vec!["dispatch-after-forget".into(), "restore-after-non-lifo-drop".into()] };
     let rep = run_lane(&cfg, "C01", &Lane { name: "with-global-recorder", cases: 1500, max_len: 160, sched_len: 48, workers: 1, f: &case_with_global });
     if let Some(v) = rep.violations.first() {
@@ -935,6 +1114,7 @@ pub fn run(cfg: &RunCfg, replay: Option<&str>) -> i32 {
     };
     pr.register("global-recorder-processes", &child_replay);
     pr.register("guard-thread-affinity", &case_affinity);
+    pr.register("exhaustive-guard-orders-le3", &case_exhaustive_replay);
     if let Some(f) = replay {
         return pr.replay(f);
     }
